@@ -502,6 +502,9 @@ func AllocRule(w *World, b *Backend, r *Result, rule string, labelsOnly ...bool)
 				}
 				seen[key] = true
 				switch {
+				case openerMethods[name] && !u.alloc && strings.Contains(u.expr, "field:"+u.counter+"-1") && !mf.SetBefore(em, u.counter):
+					// "the last allocated instance" is this instance only once the counter has been advanced
+					r.Bad(rule, key, pos, fmt.Sprintf("opener %s names %s<n> by %s before it advances the counter %s: the line refers to the instance opened before this one (its flag is cleared / its label reused), not to the one being opened — %s", name, u.name, u.expr, u.counter, em.T))
 				case afterBlockMethods[name]:
 					r.Bad(rule, key, pos, fmt.Sprintf("%s forms the instance name %s<n> from the counter %s (%s) instead of reading it from the entry its opener pushed: after a nested construct the counter has moved on — %s", name, u.name, u.counter, u.expr, em.T))
 				case openerMethods[name] && !u.alloc && !bumped[u.counter]:
@@ -1364,5 +1367,113 @@ func BatchExitRule(w *World, batch *Backend, r *Result, rule string) {
 		} else {
 			r.Ok(rule, "exit:batch:Panic:frame", w.Pos(mf.Fn.Pos()), "panic ends the script from any call depth")
 		}
+	}
+}
+
+// ElementLoopRule: a loop of a converter that ranges over a list it was handed (arguments,
+// values, parameters) and emits inside its body emits in EVERY iteration: no path from the
+// start of the body back to the loop header avoids the emitting calls.  An iteration that
+// is skipped because of what the converter remembers about earlier emissions ("this
+// register already holds that text") leaves a run-time assignment out: the text of an
+// expression says nothing about the value the register holds when control arrives there.
+func ElementLoopRule(w *World, b *Backend, r *Result, rule string) {
+	n := 0
+	for _, fn := range w.Funcs(b.Role) {
+		if len(fn.Blocks) == 0 {
+			continue
+		}
+		loops := naturalLoops(fn)
+		hdrs := map[*ssa.BasicBlock]bool{}
+		for _, h := range loops {
+			hdrs[h] = true
+		}
+		perFn := 0
+		var ordered []*ssa.BasicBlock
+		for _, blk := range fn.Blocks {
+			if hdrs[blk] {
+				ordered = append(ordered, blk)
+			}
+		}
+		for _, hdr := range ordered {
+			// a range loop over a parameter (or a list derived from one)
+			var ranged ssa.Value
+			for _, ins := range hdr.Instrs {
+				ph, ok := ins.(*ssa.Phi)
+				if !ok {
+					break
+				}
+				if strings.TrimSpace(ph.Comment) != "rangeindex" {
+					continue
+				}
+				for _, ref := range *ph.Referrers() {
+					if inc, ok := ref.(*ssa.BinOp); ok && inc.Op == token.ADD {
+						for _, r2 := range *inc.Referrers() {
+							if cmp, ok := r2.(*ssa.BinOp); ok && cmp.Op == token.LSS {
+								if lc, ok := cmp.Y.(*ssa.Call); ok {
+									if bi, ok := lc.Call.Value.(*ssa.Builtin); ok && bi.Name() == "len" {
+										ranged = lc.Call.Args[0]
+									}
+								}
+							}
+						}
+					}
+				}
+			}
+			if ranged == nil {
+				continue
+			}
+			if _, isParam := rootOf(ranged, 0).(*ssa.Parameter); !isParam {
+				continue
+			}
+			body := loopBody(hdr)
+			// blocks with an emitting call
+			emits := map[*ssa.BasicBlock]bool{}
+			for blk := range body {
+				for _, ins := range blk.Instrs {
+					c, ok := ins.(*ssa.Call)
+					if !ok {
+						continue
+					}
+					if callee := c.Call.StaticCallee(); callee != nil && (b.X.Sinks[callee] || b.X.emitters[callee]) {
+						emits[blk] = true
+					}
+				}
+			}
+			if len(emits) == 0 {
+				continue
+			}
+			n++
+			perFn++
+			key := fmt.Sprintf("elemloop:%s:%s#%d", b.Role, FuncName(fn), perFn)
+			pos := w.Pos(fn.Pos())
+			for _, ins := range hdr.Instrs {
+				if ins.Pos().IsValid() {
+					pos = w.Pos(ins.Pos())
+					break
+				}
+			}
+			cut := map[[2]*ssa.BasicBlock]bool{}
+			for blk := range body {
+				for _, sc := range blk.Succs {
+					if emits[blk] || !body[sc] {
+						cut[[2]*ssa.BasicBlock{blk, sc}] = true
+					}
+				}
+			}
+			skipped := false
+			for _, sc := range hdr.Succs {
+				if body[sc] && sc != hdr && !emits[hdr] && reachableFromWithout(sc, cut, hdr) {
+					skipped = true
+				}
+			}
+			if skipped {
+				r.Bad(rule, key, pos, fmt.Sprintf("the loop of %s over the list it was handed emits for some elements only: an iteration can return to the loop header without emitting (an assignment left out because of what the converter remembers about earlier lines is missing at run time whenever the remembered text and the live value differ)", FuncName(fn)))
+			} else {
+				r.Ok(rule, key, pos, "every iteration over the handed list passes an emitting call")
+			}
+		}
+	}
+	if n == 0 {
+		r.Triv(rule, "elemloop:"+b.Role+":none", "-", "no emitting loop over a handed list in this back end")
 	}
 }
